@@ -166,6 +166,31 @@ def run(program, rep, tier):
                 rep.ok('C20.init', site, istores[0], 'no reducing function '
                        'to mirror (or the constructor uses the setter)',
                        line=istores[0].lineno, nontrivial=False)
+            # "not given" is decided by identity (is None), never by the
+            # truth value of the argument: a falsy value that was GIVEN (an
+            # empty sequence, a vector type whose zero is false) must be
+            # stored like the setter stores it
+            truthy = None
+            for x in ast.walk(init.node):
+                if isinstance(x, ast.BoolOp) and isinstance(x.op, ast.Or) \
+                        and isinstance(x.values[0], ast.Name) \
+                        and x.values[0].id == prop:
+                    truthy = x
+                if isinstance(x, (ast.If, ast.IfExp)):
+                    t_ = x.test
+                    if isinstance(t_, ast.UnaryOp) and isinstance(
+                            t_.op, ast.Not):
+                        t_ = t_.operand
+                    if isinstance(t_, ast.Name) and t_.id == prop:
+                        truthy = x.test
+            if truthy is not None:
+                rep.bad('C20.init', site, truthy,
+                        f'the constructor decides whether `{prop}` was given '
+                        f'by its truth value ({norm(truthy)}): a falsy value '
+                        'that was given - an empty sequence, a vector object '
+                        'whose zero is false - is replaced by the default, '
+                        'while the same value assigned to the property is '
+                        'stored as it is', line=truthy.lineno)
             # defaults not shared
             a = init.node.args
             defaults = dict(zip([x.arg for x in reversed(a.args)],
